@@ -606,7 +606,12 @@ impl CPU {
     /// Fetches and executes one instruction from (pc). Returns consumed clock cycles.
     pub fn execute(&mut self) -> u32 {
         if self.halt {
-            return 4;
+            // Only an accepted interrupt ends the halt; execution then resumes after the HALT
+            if !(self.nmi || (self.iff1 && self.int.is_some())) {
+                return 4;
+            }
+            self.halt = false;
+            self.reg.pc = self.reg.pc.wrapping_add(1);
         };
 
         // Non maskable interrupt requested ?
